@@ -83,6 +83,32 @@ def generate(rng, tier):
         line = i1_line("Q", xs, [n] + trailing, flat, strat, e_array("Q", [len(qs)], qs, qtag=qtag), dtag=dtag,
                        dlay=rng.choice(gen.LAYS_ND))
         cases.append({"line": line, "meta": {"want": want, "full": True}})
+    # i64 elements: affine / bilinear functions with integer coefficients are reproduced exactly in integer arithmetic too (every
+    # secant slope is an exact integer quotient), in range and extrapolated
+    for _ in range(40 if tier == "quick" else 800):
+        ext = rng.random() < 0.6
+        trailing = gen.trailing_shape(rng, 1)
+        L = gen.shape_size(trailing)
+        if rng.random() < 0.5:
+            n = rng.choice([2, 3, 5, 8])
+            xs = gen.axis_i(rng, n, rng.choice(["uniform", "random", "gappy", "small", "evenish"]))
+            ab = [(rng.randint(-50, 50), rng.randint(-9, 9)) for _ in range(L)]
+            flat = [a + b * x for x in xs for a, b in ab]
+            qs = gen.queries_i(rng, xs, 8, ext=ext)
+            want = [Fr(a + b * q) for q in qs for a, b in ab]
+            line = i1_line("I", xs, [n] + trailing, flat, ("lin", ext), e_array("I", [len(qs)], qs), dlay=rng.choice(gen.LAYS_ND))
+        else:
+            nx, ny = rng.choice([2, 3, 5]), rng.choice([2, 4])
+            xs, ys = gen.axis_i(rng, nx, rng.choice(["uniform", "random", "gappy", "small"])), gen.axis_i(rng, ny, rng.choice(["uniform", "random", "small"]))
+            coef = [[rng.randint(-6, 6) for _ in range(4)] for _ in range(L)]
+            f = lambda c, x, y: c[0] + c[1] * x + c[2] * y + c[3] * x * y
+            flat = [f(coef[l], x, y) for x in xs for y in ys for l in range(L)]
+            k = 6
+            qx = [rng.choice(gen.queries_i(rng, xs, 8, ext=ext)) for _ in range(k)]
+            qy = [rng.choice(gen.queries_i(rng, ys, 8, ext=ext)) for _ in range(k)]
+            want = [Fr(f(coef[l], x, y)) for x, y in zip(qx, qy) for l in range(L)]
+            line = i2_line("I", xs, ys, [nx, ny] + trailing, flat, ext, e_array("I", [k], qx, qy), dlay=rng.choice(gen.LAYS_ND))
+        cases.append({"line": line, "meta": {"want": want, "full": True}})
     return cases
 
 
